@@ -216,18 +216,32 @@ htp_status_t htp_gzip_decompressor_decompress(htp_decompressor_t *drec1, htp_tx_
         // Prepare data for callback.
         htp_tx_data_t dout;
         dout.tx = d->tx;
+        dout.is_last = d->is_last;
         // This is last call, so output uncompressed data so far
         dout.len = GZIP_BUF_SIZE - drec->stream.avail_out;
         if (dout.len > 0) {
             dout.data = drec->buffer;
-        } else {
-            dout.data = NULL;
+            if (drec->super.next != NULL && drec->zlib_initialized) {
+                callback_rc = htp_gzip_decompressor_decompress(drec->super.next, &dout);
+            } else {
+                // Send decompressed data to the callback.
+                callback_rc = drec->super.callback(&dout);
+            }
+            if (callback_rc != HTP_OK) {
+                htp_gzip_decompressor_end(drec);
+                return callback_rc;
+            }
+            drec->stream.next_out = drec->buffer;
+            drec->stream.avail_out = GZIP_BUF_SIZE;
         }
-        dout.is_last = d->is_last;
+
+        // Then pass the end-of-data indication on, so that the next layer
+        // is flushed too and the callback sees the end of the body
+        dout.data = NULL;
+        dout.len = 0;
         if (drec->super.next != NULL && drec->zlib_initialized) {
             return htp_gzip_decompressor_decompress(drec->super.next, &dout);
         } else {
-            // Send decompressed data to the callback.
             callback_rc = drec->super.callback(&dout);
             if (callback_rc != HTP_OK) {
                 htp_gzip_decompressor_end(drec);
